@@ -72,6 +72,7 @@ package reconciler
 //@   atcall (*incremental).processSingle@1 requires @only-pending-or-deleted change.Deleted || *status.Kind == StatusKindPending || *status.Kind == StatusKindRefreshing
 //@   atcall (*incremental).processSingle@1 requires @progress-is-the-change-attempted lastRev == rev
 //@   mustcall Clear@1 when @changed-object-drops-its-pending-retry incr.numReconciled == old(incr.numReconciled) + 1
+//@   ensures @round-stops-only-after-processing-the-change-in-hand !result ==> incr.numReconciled == old(incr.numReconciled) + 1
 //@ func (*incremental).batch$1
 //@   property C15 C16
 //@   flag nosafety
@@ -79,6 +80,7 @@ package reconciler
 //@   flag dyncall.GetObjectStatus=pure
 //@   flag dyncall.CloneObject=pure
 //@   mustcall Clear@1 when @changed-object-drops-its-pending-retry incr.numReconciled == old(incr.numReconciled) + 1
+//@   ensures @round-stops-only-after-processing-the-change-in-hand !result ==> incr.numReconciled == old(incr.numReconciled) + 1
 
 // ---------------------------------------------------------------------------
 // Retry pacing and progress (C16)
@@ -264,3 +266,36 @@ package reconciler
 //@   atcall (*reconciler).prune@1 requires @initialized-before-the-snapshot-was-taken initSeenAtSnapshot(1)
 //@   atcall (*progressTracker).update@1 requires @progress-is-what-the-round-returned $1 == lastRevision && $2 == retryLowWatermark
 //@   loop 1 invariant @initialized-only-after-the-init-channel-fired tableInitialized ==> tableInitWatch == nil
+
+// The two orderings of the retry queue (C16): the time heap is ordered by retry time, the revision
+// heap by the revision of the change that originally failed (origRev) - which is what
+// LowWatermark reports for its top item.
+//@ func newRetries$1
+//@   property C16
+//@   flag nosafety
+//@   ensures @time-heap-ordered-by-retry-time result <==> tAfter(*items[j].retryAt, *items[i].retryAt)
+//@ func newRetries$3
+//@   property C16
+//@   flag nosafety
+//@   ensures @revision-heap-ordered-by-original-revision result <==> items[i].origRev < items[j].origRev
+
+// The user-supplied operations and the metrics sink are outside the reconciler: assumed not to
+// reach the fields of the reconciler's own (unexported) incremental state.
+//@ func Operations.*
+//@   trusted
+//@   modifies H_statedb_* H_part_* H_lpm_* E_* GH_* CH_closed MD_* MV_* MN_*
+//@ func Metrics.*
+//@   trusted
+//@   modifies H_statedb_* H_part_* H_lpm_* E_* GH_* CH_closed MD_* MV_* MN_*
+
+// processSingle performs one operation and records its outcome; it does not touch the round
+// counter (the user-supplied operations and metrics are assumed not to reach reconciler-private
+// state: dyncall=pure).
+//@ func (*incremental).processSingle
+//@   property C15 C16
+//@   flag nosafety
+//@   maypanic
+//@   flag dyncall.CloneObject=pure
+//@   flag dyncall.GetObjectStatus=pure
+//@   flag assumepre=the-retry-queues-are-built-once-by-newRetries-and-never-reassigned
+//@   ensures @leaves-the-round-counter-alone incr.numReconciled == old(incr.numReconciled)
